@@ -174,6 +174,18 @@ CHECKS["C09"] = dict(
          "to convergence and certified against the C01 bound.",
     technique="Lean 4 proof of resume = uninterrupted from loop composability + snapshot/restore agreement + fresh-process interrupt/resume runs compared bitwise",
     ref="§8 C09", note="Orbax serialisation fidelity and cross-process float reproducibility are runtime behaviour, observed only.")
+CHECKS["C10"] = dict(
+    text="Theorems over the store/restore model: restore succeeds iff config.yaml is present and the chosen step (explicit, else the latest "
+         "committed) is committed; without configuration it fails with FileNotFoundError, with configuration but no committed step with "
+         "ValueError - no solver is returned; on success exactly the committed entry of that step is loaded (latest by default; `step or "
+         "latest` makes an explicit 0 mean latest); load_checkpoint loads the same entry without needing configuration; every state field is "
+         "restored except that the VI family's stored policy is dropped (model of the code as it stands - known finding), PI's policy is "
+         "restored; saving elsewhere or with other frequency/retention never alters what a restore of this directory loads. Partial: "
+         "Hydra instantiate, the OmegaConf YAML round trip and Orbax are runtime. Tie: 5 solvers x 4 shipped problems (tuple parameters), saver "
+         "state recorded per step; fresh-process restores of latest/explicit steps under override combinations: state bit for bit, stored "
+         "policy, configuration field by field, overrides in effect, original directory untouched; error directories; load route.",
+    technique="Lean 4 theorems over the store/restore decision model + fresh-process differential check of real restore()/load_checkpoint() against recorded saver states",
+    ref="§8 C10", note="Hydra/OmegaConf/Orbax are runtime layers, observed through the correspondence only.")
 PENDING = {}
 
 
